@@ -331,9 +331,11 @@ impl<Octs: Octets> Parameter<Octs> {
         let len = parser.parse_u8()? as usize;
         if typ == 2 {
             // There might be more than Capability within a single Optional
-            // Parameter, so we need to loop.
-            while parser.pos() < pos + len {
-                Capability::parse(parser)?;
+            // Parameter, so we need to loop: over exactly the value of this
+            // parameter, which is what the capabilities() iterator walks.
+            let mut caps_parser = parser.parse_parser(len)?;
+            while caps_parser.remaining() > 0 {
+                Capability::parse(&mut caps_parser)?;
             }
         } else {
             warn!("Optional Parameter in BGP OPEN other than Capability: {}",
